@@ -162,6 +162,8 @@ type SrvFid struct {
 	sync.Mutex
 	fid       uint32
 	refcount  int
+	bound     bool        // True while the fid table holds its reference to the SrvFid
+	unbound   bool        // True once a request has invalidated the SrvFid
 	opened    bool        // True if the SrvFid is opened
 	Fconn     *Conn       // Connection the SrvFid belongs to
 	Omode     uint8       // Open mode (O* flags), if the fid is opened
@@ -481,10 +483,12 @@ func (req *SrvReq) Flush() {
 func (conn *Conn) FidGet(fidno uint32) *SrvFid {
 	conn.Lock()
 	fid, present := conn.fidpool[fidno]
-	conn.Unlock()
 	if present {
+		// under the lock: the last reference cannot go, and the fid be
+		// destroyed, between the lookup and this one
 		fid.IncRef()
 	}
+	conn.Unlock()
 
 	return fid
 }
@@ -514,6 +518,31 @@ func (conn *Conn) String() string {
 	return conn.Srv.Id + "/" + conn.Id
 }
 
+// Takes the fid table's reference to the fid, when the request that
+// introduces the fid has succeeded. A fid that a concurrent request has
+// already invalidated is not bound any more.
+func (fid *SrvFid) bind() {
+	fid.Lock()
+	if !fid.bound && !fid.unbound {
+		fid.bound = true
+		fid.refcount++
+	}
+	fid.Unlock()
+}
+
+// Drops the fid table's reference to the fid, once, whatever the number
+// of requests that invalidate the fid at the same time.
+func (fid *SrvFid) unbind() {
+	fid.Lock()
+	bound := fid.bound
+	fid.bound = false
+	fid.unbound = true
+	fid.Unlock()
+	if bound {
+		fid.DecRef()
+	}
+}
+
 // Increase the reference count for the fid.
 func (fid *SrvFid) IncRef() {
 	fid.Lock()
@@ -524,18 +553,21 @@ func (fid *SrvFid) IncRef() {
 // Decrease the reference count for the fid. When the
 // reference count reaches 0, the fid is no longer valid.
 func (fid *SrvFid) DecRef() {
+	conn := fid.Fconn
+	conn.Lock()
 	fid.Lock()
 	fid.refcount--
 	n := fid.refcount
 	fid.Unlock()
 
 	if n > 0 {
+		conn.Unlock()
 		return
 	}
 
-	conn := fid.Fconn
-	conn.Lock()
-	delete(conn.fidpool, fid.fid)
+	if conn.fidpool[fid.fid] == fid {
+		delete(conn.fidpool, fid.fid)
+	}
 	conn.Unlock()
 
 	if fop, ok := (conn.Srv.ops).(SrvFidOps); ok {
